@@ -181,12 +181,27 @@ func (e *BinaryOpExpr) checkWithCompares(ctx *CheckCtx) error {
 		if ltype != TSTR {
 			return NewSyntaxError(e.Left.GetPos(), "%s operator has wrong type of left expression", op)
 		}
+	case KWAnd, KWOr:
+		// Same as & and | the keywords take boolean operands
+		if ltype != TBOOL {
+			return NewSyntaxError(e.Left.GetPos(), "%s operator has wrong type of left expression", op)
+		}
+	case Eq, NotEq:
+		// Lists and JSON documents cannot be compared
+		if ltype != TSTR && ltype != TNUMBER && ltype != TBOOL {
+			return NewSyntaxError(e.Left.GetPos(), "%s operator has wrong type of left expression", op)
+		}
 	}
 	return nil
 }
 
 func (e *BinaryOpExpr) checkWithIn(ctx *CheckCtx) error {
 	ltype := e.Left.ReturnType()
+	switch ltype {
+	case TSTR, TNUMBER:
+	default:
+		return NewSyntaxError(e.Left.GetPos(), "in operator only support string and number type")
+	}
 	switch r := e.Right.(type) {
 	case *ListExpr:
 		for _, expr := range r.List {
